@@ -101,7 +101,7 @@ def gen_case(st, tier, env):
                 else:
                     base = base[:i] + w.choice(FUZZ_ALPHABET) + base[i + 1:]
             texts.append(base)
-    case = {"strings": strings, "file": {"dataset": ds, "path": k.choice(["out.txt", "/sim/data/d1", "sub.rankings"]),
+    case = {"strings": strings, "file": {"dataset": ds, "path": k.choice(["out.txt", "/sim/data/d1", "sub.rankings", "./out.txt", "../data/d2"]),
                                          "fault": fault}, "texts": texts}
     if k.random() < 0.3:
         kind2 = k.choice(["int", "str"])
